@@ -216,10 +216,14 @@ static Leaf genLeaf(Rng& rng, const World& w) {
     double rr = rng.unit();
     if (month && rr < 0.6) { l.rhs = plainTok(MONTHS[rng.below(13)]); l.rhsKind = "month-name"; }
     else if (date) {
-        // integers only: the library documents rounding of fractional month numbers, the statement does not
         double v = l.q == "DAY" ? (double)rng.range(1, 31) : l.q == "MNTH" ? (double)rng.range(1, 12) : (double)rng.range(1999, 2031);
         if (rng.chance(0.4)) v = w.sc.at(l.q) + (double)rng.range(-1, 1);
+        // A month number with a fraction is compared as its nearest integer (the documented meaning of MNTH, see ASTNode.cpp:
+        // "MNTH = 10.8 holds in November").  Exact halves are left out: the rule does not say which way they go.
+        if (month && rng.chance(0.35)) { static const double fr[] = {0.1, 0.2, 0.3, 0.4, 0.45, 0.55, 0.6, 0.7, 0.8, 0.9}; { const double f = fr[rng.below(10)]; v += (rng.chance(0.5) || v - f < 0) ? f : -f; } l.rhsKind = "month-number-with-fraction"; l.rhs = plainTok(numTok(v, rng)); }
+        else {
         l.rhs = plainTok(numTok(v, rng)); l.rhsKind = "number";
+        }
     }
     else if (rr < 0.08) { l.rhs = plainTok(FQ[rng.below(5)]); l.rhsKind = "field-quantity"; }
     else if (rr < 0.11) { l.rhs = plainTok(GQ[rng.below(3)]); l.rhsArgs.push_back(pickName(rng, GROUPS, 0.5)); l.rhsKind = "group-quantity"; }
@@ -378,7 +382,8 @@ static std::vector<std::string> wellsOf(const World& w, const std::string& q, co
 
 static RV evalComparison(const World& w, const std::string& q, const std::vector<std::string>& args, int op,
                          const std::string& rhs, const std::vector<std::string>& rhsArgs, long* nwell = nullptr) {
-    const double rv = scalarOf(w, rhs, rhsArgs);
+    double rv = scalarOf(w, rhs, rhsArgs);
+    if (q == "MNTH" && args.empty() && rhsArgs.empty() && isNumberTok(rhs)) rv = std::round(rv);   // nearest month
     RV r;
     if (q[0] == 'W' && args.size() == 1) {                 // well-level comparison
         for (auto& well : wellsOf(w, q, args[0])) {
